@@ -34,7 +34,14 @@ func (c *lookupCtx) Finalize(rule.Backend) error { return c.PipelineError() }
 var nopCtx = zerolog.Nop().WithContext(context.Background())
 
 // find asks the real repository; returns the rule id ("" if none/err) and captures.
-func find(repo rule.Repository, method, path string) (string, map[string]string) {
+func find(repo rule.Repository, method, path string) (id string, caps map[string]string) {
+	// a panic inside heimdall's lookup (the services' recovery middleware would turn it into a 500) must not
+	// take the monitor down: it is reported as the answer "<panic: ...>", which no oracle expects
+	defer func() {
+		if x := recover(); x != nil {
+			id, caps = fmt.Sprintf("<panic: %v>", x), nil
+		}
+	}()
 	ctx := newLookupCtx(method, path)
 	rl, err := repo.FindRule(ctx)
 	if err != nil || rl == nil {
